@@ -194,7 +194,8 @@ Record Inv (s : rst) : Prop := {
   i_budget : forall p, cnt s p >= need (rdone s) p;
   i_done : forall w m, In (w, m) (rdone s) -> cnt s m >= 1 -> aget (memo (sel w s)) m <> None;
   i_ins : forall w m v, aget ins m = Some v -> cnt s m >= 1 -> aget (memo (sel w s)) m = Some (leafv w v);
-  i_cinv : CInv (rstore s)
+  i_cinv : CInv (rstore s);
+  i_nodup : NoDup (rdone s)      (* no generator completes twice in one call *)
 }.
 
 Definition InProg (s : rst) (w : which) (n : nat) : Prop :=
@@ -448,6 +449,7 @@ Proof.
       * destruct (evd q) eqn:Ee; [apply Hevd0 in Ee; lia|].
         apply (i_ins _ Hi1 w2 q vq Hq). rewrite C2 in Hcq. lia.
     + rewrite KS. exact (i_cinv _ Hi1).
+    + rewrite D2. constructor; [apply isdone_false_notin; exact Hnd1|exact (i_nodup _ Hi1)].
   - (* FrNode *)
     constructor.
     + intros q Hq. rewrite C2, (Hself q Hq), Nat.sub_0_r. apply (f_cnt _ _ _ _ Hf1 q Hq).
